@@ -329,6 +329,23 @@ func checkGraph(c GraphCase) (v ev.Verdict) {
 			}
 		}
 	}
+	// the HTML rendering is total as well, and lists every node once
+	var html wc
+	var herr error
+	if p := trapPanic(func() { herr = tools.RenderSpecPage(spec, &html, nil, true) }); p != "" {
+		v.Failf("RenderSpecPage panicked: %s", p)
+		return
+	}
+	if herr != nil {
+		v.Failf("RenderSpecPage failed on a compilable spec: %v", herr)
+		return
+	}
+	for name := range spec.Nodes {
+		if n := strings.Count(html.String(), fmt.Sprintf(`class="nodeName">%s</span>`, name)); n != 1 {
+			v.Failf("HTML: node %q is listed %d times", name, n)
+			return
+		}
+	}
 	feats := 0
 	for _, f := range [][]string{missing, vars, orphans} {
 		if len(f) > 0 {
